@@ -22,9 +22,15 @@ CHECKS = {
  "C08": dict(cat="proof", tech=TECH % "z3 + GF(2)-affine forms (DF11 parity overlay)",
       text="squawk/idcode, surv.fs/dr/um/identity, allcall.capability/interrogator and the TC28 squawk are proved field by field against Annex 10 positions for all frames; the interrogator code is proved for every frame written as data||parity(data) xor r.",
       ref="DESIGN.md section 5 C08"),
+ "C09": dict(cat="proof", tech=TECH % "z3 (linear / polynomial integer arithmetic, uninterpreted sqrt and atan2)",
+      text="airborne_velocity is proved against the DO-260B TC19 layout for every frame of subtypes 1-4 (case split on subtype and the two sign bits, all field values symbolic), altitude_diff and surface_velocity (all 128 movement codes, all track codes) against their tables, velocity() dispatch against opaque callee contracts; sqrt/atan2 are uninterpreted (the spec uses the same symbols), the int(sqrt()) truncation margin is argued in DESIGN.md.",
+      ref="DESIGN.md section 5 C09"),
  "C10": dict(cat="proof", tech=TECH % "z3",
       text="callsign/category/cs20 bodies proved against the six-bit character table for every frame; round trip for all 37^8 legal identifications (symbolic codes) position by position.",
       ref="DESIGN.md section 5 C10"),
+ "C13": dict(cat="proof", tech=TECH % "z3 + exhaustive table evaluation (uncertainty tables)",
+      text="All TC28/TC29 (subtype 0 and 1)/TC31 field decoders are proved against DO-260B bit ranges for every frame; NUCp/NIC/NAC/SIL look-ups are proved total on their domain (TC x supplement x version) with RuntimeError outside it; table monotonicity by exhaustive evaluation. Known finding F16 (horizontal_mode bit range, medium-confidence oracle) is excluded by its region predicate.",
+      ref="DESIGN.md section 5 C13"),
  "C11": dict(cat="proof", tech=TECH % "z3 (linear integer/real arithmetic over symbolic frame bits)",
       text="Each of the 29 scalar field decoders plus wind44/temp44/ovc10 is proved against the Doc 9871 layout table (status, sign, msb, lsb, LSB, offset, wrap) for every 112-bit frame; cap17 deductively for all patterns with <=2 capability bits and bounded otherwise (2^24 list shapes); re-export identity by table evaluation. Known finding F14 (vr53 special case) is excluded by its region predicate.",
       ref="DESIGN.md section 5 C11"),
